@@ -523,8 +523,8 @@ def run(ck: core.Check):
                       f"{type(e).__name__}: {e} (spox._scope.ScopeSpace attributes/signatures changed?)")
 
     # generated programs (oracle on all; naming correspondence on the 'naming' slice)
-    n_oracle = ck.pick(2000, 12000)
-    n_naming = ck.pick(600, 5000)
+    n_oracle = ck.pick(1600, 12000)
+    n_naming = ck.pick(500, 5000)
     tasks = [(ck.seed, i, "oracle") for i in range(n_oracle)] + [(ck.seed, 10**6 + i, "naming") for i in range(n_naming)]
     results = L.robust_map(case_worker, tasks, min(14, mp.cpu_count()), core.WORK)
     # a case on which the worker process died (C++ abort inside a third-party judge): judged again without
